@@ -77,3 +77,52 @@ Print Assumptions C12_merge_with_nothing_right.
 Theorem C12_hypotheses_satisfiable : schema_ok ex_schema ex_R /\ family_refs ex_schema ex_R /\ ex_R ex_rt.
 Proof. exact (conj ex_schema_ok (conj ex_family ex_R_rt)). Qed.
 Print Assumptions C12_hypotheses_satisfiable.
+
+(* ---- right-hand side wins, frame, idempotence (proofs in Proofs/Merge{Inter,VeqbAux,Veqb,
+   Descent,Agree}.v and Proofs/ResolveLaws.v).  [agrees] (Spec/Agree.v): every node of R is
+   present in the result and every leaf of R carries R-s value; [leaf_nodes]/[has_leaf]:
+   the leaves of an object by the independent resolver. ---- *)
+From SMD Require Import Spec.PathsAsSets Spec.Agree Proofs.MergeAgree.
+Theorem C12_right_hand_side_wins :
+  forall (s : schema) (R : typeref -> Prop) (tr : typeref) (l r out : value),
+         schema_ok s R ->
+         family_refs s R ->
+         R tr ->
+         wf_value l = true ->
+         wf_value r = true ->
+         conforms s tr true l = true ->
+         conforms s tr false r = true ->
+         plain r = true -> merge s tr l r = Some (Some out) -> agrees s tr r out = true.
+Proof. exact merge_right_wins. Qed.
+Print Assumptions C12_right_hand_side_wins.
+
+Theorem C12_nothing_else_changes :
+  forall (s : schema) (R : typeref -> Prop) (tr : typeref) (l r out : value),
+         schema_ok s R ->
+         family_refs s R ->
+         R tr ->
+         wf_value l = true ->
+         wf_value r = true ->
+         conforms s tr true l = true ->
+         conforms s tr false r = true ->
+         merge s tr l r = Some (Some out) ->
+         forallb
+           (fun pn : path * rnode =>
+            has_leaf s tr r (fst pn) (snd pn) || has_leaf s tr l (fst pn) (snd pn))
+           (leaf_nodes s tr out) = true.
+Proof. exact merge_leaves_from_operands. Qed.
+Print Assumptions C12_nothing_else_changes.
+
+Theorem C12_merging_again_is_a_noop :
+  forall (s : schema) (R : typeref -> Prop) (tr : typeref) (l r out : value),
+         schema_ok s R ->
+         family_refs s R ->
+         R tr ->
+         wf_value l = true ->
+         wf_value r = true ->
+         conforms s tr true l = true ->
+         conforms s tr false r = true ->
+         merge s tr l r = Some (Some out) -> merge s tr out r = Some (Some out).
+Proof. exact merge_idempotent. Qed.
+Print Assumptions C12_merging_again_is_a_noop.
+
